@@ -167,7 +167,7 @@ def check_document(P, doc, expect, feats, w):
 def gen_model_ir(r, name, explicit_pk):
     ir = irgen.rand_ir(r, nparams=r.randint(1, 6), type_kinds=("int", "float", "str", "bool", "optional", "literal"),
                        default_kinds=("absent", "int", "float", "str", "bool"), suffix_defaults=False, with_return=False,
-                       name=name)
+                       name=name, doc_kinds=("plain", "plain", "punct"))
     for p in ir["params"].values():
         if p["typ"].startswith("Optional["):
             p.pop("default", None)
